@@ -808,6 +808,9 @@ impl<'a> GeneratorState<'a> {
                                     .syntax_error("Subscript not allowed on variables", pos))
                             }
                         }
+                        ExprType::Immediate(val) if !(-0xffff..=0xffff).contains(&val) => Err(self
+                            .compiler_state
+                            .syntax_error("Constant subscript out of range", pos)),
                         ExprType::Immediate(val) => {
                             if v.var_type != VariableType::Char
                                 && v.var_type != VariableType::Short
